@@ -608,6 +608,11 @@ class Link:
                 w.log.append(f"  link {key} {em.info} HOOK {r}")
                 if r[0] == "delay":
                     w.push(w.clock.t + w.cfg.lat_ms + r[1], ("arr", dst, em.raw))
+                elif r[0] == "dup":
+                    w.push(w.clock.t + w.cfg.lat_ms, ("arr", dst, em.raw))
+                    w.push(w.clock.t + w.cfg.lat_ms + 1 + r[1], ("arr", dst, em.raw))
+                if r[0] != "pass":
+                    self.last_fault_t = w.clock.t
                 return
         if self.partition.get(src_ent.name):
             self.fired["partition_drop"] += 1
